@@ -83,7 +83,7 @@ func init() {
 }
 
 func init() {
-	reg(&propCfg{ID: "C12", QuickRuns: 2500, QuickSecs: 40, ThoroughRuns: 200000, ThoroughSecs: 780, Chunk: 50,
+	reg(&propCfg{ID: "C12", QuickRuns: 2000, QuickSecs: 40, ThoroughRuns: 200000, ThoroughSecs: 780, Chunk: 50,
 		RuleNote:   "C12 strata by run index: 'grid' enumerates server msize {default,24,25,64,300,8192,1 MiB+24} x client msize {0,23,24,25,server-1,server,server+1,2^32-1,200,4096} x server dialect x version string {9P2000,9P2000.u,9P2000.L,'',unknown} (700 cells, each revisited under new schedules) and then measures every reply kind on the wire with the script producing Rstat / Rerror at msize-1, msize, msize+1, 2*msize, reads up to msize-24 and a 16-element walk; 'bad-frame' announces sizes 0..6, msize+1, 8*msize+1, 2^31, 2^32-1 with and without a partial body; 'client' runs Connect against scripted Rversion (msize <,=,> the client's, five version strings); 'renegotiate' sends a second Tversion with a smaller msize after the reply-buffer pool was filled, optionally with requests parked.",
 		Real:       append(append([]string{}, srvReal...), "go9p client Connect/Attach (client stratum)"), Stub: srvStub,
 		ProbeNames: []string{"msize-too-small-refused", "rstat-sent", "reply-refused-for-size", "rerror-full-text-sent", "rerror-shortened-or-replaced", "reply-buffer-older-than-negotiation", "renegotiation-with-requests-outstanding"}})
@@ -112,7 +112,7 @@ var ufsStub = []string{"transport: simulated net.Conn (segmentation by policy)",
 
 func init() {
 	reg(&propCfg{ID: "C14", QuickRuns: 1500, QuickSecs: 40, ThoroughRuns: 60000, ThoroughSecs: 780, Chunk: 20,
-		RuleNote:   "C14: 1..4 (thorough ..6) caller goroutines, each with 1..3 files of length 0, 1, iounit-1, iounit, iounit+1, 2*iounit+-1, 3*iounit+7 or random up to 5 iounits (seeded content), iounit 128..65512 further limited by the server's msize, both dialects; 2..8 operations per file drawn from Clnt.Read/Write, File.Read/Write/ReadAt/WriteAt/Readn/Written and a full sequential read, offsets at 0, EOF, EOF+1, beyond, iounit multiples -1, counts 0, 1, iounit-1..iounit+1, 2 and 3 iounits; every result is compared with a byte-slice model and, after every write, the model with os.ReadFile.",
+		RuleNote:   "C14: 1..4 (thorough ..6) caller goroutines, each with 1..3 files of length 0, 1, iounit-1, iounit, iounit+1, 2*iounit+-1, 3*iounit+7 or random up to 5 iounits (seeded content), iounit 128..65512 further limited by the server's msize, both dialects; 2..8 operations per file drawn from Clnt.Read/Write, File.Read/Write/ReadAt/WriteAt/Readn/Written and a full sequential read, offsets at 0, EOF, EOF+1, beyond, iounit multiples -1, counts 0, 1, iounit-1..iounit+1, 2 and 3 iounits; every result is compared with a byte-slice model and, after every write, the model with os.ReadFile. Every 5th run injects OS errors into Ufs (10-80 per mille, at most 5): a call running while an error fired may fail, but what it reports as written must be in the file and nothing else may change.",
 		Real:       ufsReal, Stub: ufsStub,
 		ProbeNames: []string{"read-at-or-past-eof", "read-ending-exactly-at-eof", "write-past-eof", "read-spanning-3+-messages", "readn-spanning-messages", "written-spanning-messages"}})
 }
@@ -132,8 +132,8 @@ func init() {
 }
 
 func init() {
-	reg(&propCfg{ID: "C17", QuickRuns: 1200, QuickSecs: 40, ThoroughRuns: 50000, ThoroughSecs: 780, Chunk: 20,
-		RuleNote:   "C17: a random tree (3..25 entries: files, directories, symlinks, hard links) is created twice; 8..30 (thorough ..80) mutations drawn against the current state — create of a file with each open mode +-OTRUNC followed by a write through the new fid, of a directory, symlink (also dangling) and hard link, write to an existing file, remove of files and of empty and non-empty directories, wstat rename to free and occupied names, truncate to 0..beyond size, chmod, mtime — are applied through raw 9P requests to tree A and with the os package to twin B; after every step the trees are compared recursively (names, kinds, permission bits, contents, link targets, link counts), error replies must leave A unchanged (create, remove) and carry the errno of the POSIX failure in 9P2000.u, and Tstat on the fid after create/rename must name the new object. Create over an existing name may either fail or behave like a non-exclusive open.",
+	reg(&propCfg{ID: "C17", QuickRuns: 1500, QuickSecs: 40, ThoroughRuns: 50000, ThoroughSecs: 780, Chunk: 20,
+		RuleNote:   "C17: a random tree (3..25 entries: files, directories, symlinks, hard links) is created twice; 8..30 (thorough ..80) mutations drawn against the current state — create of a file with each open mode +-OTRUNC followed by a write through the new fid, of a directory, symlink (also dangling) and hard link, write to an existing file, remove of files and of empty and non-empty directories, wstat rename to free and occupied names, truncate to 0..beyond size, chmod, mtime — are applied through raw 9P requests to tree A and with the os package to twin B; after every step the trees are compared recursively (names, kinds, permission bits, contents, link targets, link counts), error replies must leave A unchanged (create, remove) and carry the errno of the POSIX failure in 9P2000.u, and Tstat on the fid after create/rename must name the new object. Create over an existing name may either fail or behave like a non-exclusive open. Every 4th run (stratum os-error) lets one os / syscall call of the mutating request fail with a drawn errno (EIO, ENOSPC, EACCES, EMFILE, ENOENT, EINTR, EROFS, ENOMEM) instead of being performed: the reply must carry that errno, a failed create/remove must leave the tree unchanged, and the twin is re-synchronised afterwards.",
 		Real:       ufsReal, Stub: ufsStub,
 		ProbeNames: []string{"create-error", "remove-error", "rename", "truncate", "chmod", "set-mtime", "symlink-create", "hardlink-create"}})
 }
@@ -154,8 +154,8 @@ func init() {
 }
 
 func init() {
-	reg(&propCfg{ID: "C06", QuickRuns: 2500, QuickSecs: 45, ThoroughRuns: 300000, ThoroughSecs: 780, Chunk: 40,
-		RuleNote:   "C06: six strata (scripted implementation | Ufs on a scratch tree) x (grammar | byte mutation | raw bytes). A hostile raw peer optionally negotiates (msize 24..70000) and binds fids in several states (attached, walked, opened directory and file), then sends 5..30 frames: every message type (T and R codes) with boundary and random field values (NOFID, NOTAG, 0, max, 2^31, 2^63, 2^64-1), names '', '.', '..', 'a/b', '/', 255, 4000 and 65000 bytes, walks of 16, 17 and 300 elements, counts around msize and 2^32, directory reads at arbitrary offsets, second Tversion mid-session; or valid requests with flipped / inserted / deleted / truncated bytes and edited size fields; or random bytes. A bystander connection issues Tstat throughout and a fresh connection is opened afterwards. Oracle: no goroutine of the simulated process panics; bystander and later connection are served; allocation stays bounded.",
+	reg(&propCfg{ID: "C06", QuickRuns: 1800, QuickSecs: 45, ThoroughRuns: 300000, ThoroughSecs: 780, Chunk: 40,
+		RuleNote:   "C06: six strata (scripted implementation | Ufs on a scratch tree) x (grammar | byte mutation | raw bytes). A hostile raw peer optionally negotiates (msize 24..70000) and binds fids in several states (attached, walked, opened directory and file), then sends 5..30 frames: every message type (T and R codes) with boundary and random field values (NOFID, NOTAG, 0, max, 2^31, 2^63, 2^64-1), names '', '.', '..', 'a/b', '/', 255, 4000 and 65000 bytes, walks of 16, 17 and 300 elements, counts around msize and 2^32, directory reads at arbitrary offsets, second Tversion mid-session; or valid requests with flipped / inserted / deleted / truncated bytes and edited size fields; or random bytes. A bystander connection issues Tstat throughout and a fresh connection is opened afterwards. Every other Ufs run additionally injects OS errors (20-200 per mille, at most 12) into the os / syscall calls of Ufs. Oracle: no goroutine of the simulated process panics; bystander and later connection are served; allocation stays bounded.",
 		Real:       append(append([]string{}, srvReal...), "go9p Ufs on a scratch tree (ufs strata)"),
 		Stub:       srvStub,
 		ProbeNames: []string{"hostile-connection-dropped-by-server", "bystander-worked-throughout", "grammar-Tread", "grammar-Twalk", "grammar-Twstat", "grammar-Tcreate", "grammar-Rread"}})
